@@ -6,6 +6,7 @@ import Enc.Driver.Thrift
 import Enc.Driver.Json
 import Enc.Driver.JsonBuf
 import Enc.Driver.Conc
+import Enc.Driver.JsonRaw
 /-!
 encdriver: reads `op<TAB>arg…` lines on stdin, answers `M<TAB>S<TAB>K` per line
 (model observable, spec observable, comma-separated Known classes), `bad-op` for what it cannot parse.
@@ -20,6 +21,7 @@ def dispatch (op : String) (args : List String) : Option (String × String × St
   else if op.startsWith "iso." then Driver.Iso.handle op args
   else if op.startsWith "thrift." then Driver.Thrift.handle op args
   else if op.startsWith "conc." then Driver.Conc.handle op args
+  else if op == "json.rawemit" then Driver.JsonRaw.handle op args
   else if op == "json.bufappend" then Driver.JsonBuf.handle op args
   else if op.startsWith "json." then Driver.Json.handle op args
   else none
